@@ -28,10 +28,16 @@ from .parser import (
 class RegexCompiler:
     """Compiles regex AST to bytecode."""
 
+    # Counted quantifiers are unrolled, so compile work and program size grow
+    # with the product of nested counts.  Refuse a pattern once this many AST
+    # nodes were visited instead of compiling for ever.
+    MAX_COMPILE_WORK = 200000
+
     def __init__(self, flags: str = ""):
         self.flags = flags
         self.bytecode: List[Tuple] = []
         self.register_count = 0
+        self.work = 0
         self.multiline = "m" in flags
         self.ignorecase = "i" in flags
         self.dotall = "s" in flags
@@ -50,6 +56,7 @@ class RegexCompiler:
         """
         self.bytecode = []
         self.register_count = 0
+        self.work = 0
 
         # Save group 0 start (full match)
         self._emit(Op.SAVE_START, 0)
@@ -79,8 +86,15 @@ class RegexCompiler:
         """Get current bytecode offset."""
         return len(self.bytecode)
 
+    def _charge(self, amount: int = 1):
+        """Account for visited AST nodes; refuse oversized patterns."""
+        self.work += amount
+        if self.work > self.MAX_COMPILE_WORK:
+            raise RegExpError("Regular expression too large")
+
     def _compile_node(self, node: Node):
         """Compile a single AST node."""
+        self._charge()
         if isinstance(node, Char):
             self._compile_char(node)
         elif isinstance(node, Dot):
@@ -132,6 +146,7 @@ class RegexCompiler:
             else:
                 ranges.append((ord(start), ord(end)))
 
+        self._charge(len(ranges))
         if node.negated:
             self._emit(Op.RANGE_NEG, ranges)
         else:
@@ -333,6 +348,7 @@ class RegexCompiler:
         Check if a node might match without advancing position.
         Used for ReDoS protection.
         """
+        self._charge()
         if isinstance(node, (Char, Dot, Shorthand)):
             return False  # Always advances
         if isinstance(node, CharClass):
@@ -359,6 +375,7 @@ class RegexCompiler:
 
     def _find_capture_groups(self, node: Node) -> List[int]:
         """Find all capture group indices in a node."""
+        self._charge()
         groups = []
         if isinstance(node, Group):
             if node.capturing:
